@@ -1,6 +1,7 @@
 package capella
 
 import (
+	"encoding/json"
 	"github.com/protolambda/ztyp/codec"
 	"github.com/protolambda/ztyp/tree"
 	. "github.com/protolambda/ztyp/view"
@@ -47,6 +48,13 @@ var HistoricalSummaryType = ContainerType("HistoricalSummary", []FieldDef{
 
 // HistoricalSummaries are the summaries of historical batches
 type HistoricalSummaries []HistoricalSummary
+
+func (li HistoricalSummaries) MarshalJSON() ([]byte, error) {
+	if li == nil {
+		return []byte("[]"), nil // encode as empty list, not null
+	}
+	return json.Marshal([]HistoricalSummary(li))
+}
 
 func (a *HistoricalSummaries) Deserialize(spec *common.Spec, dr *codec.DecodingReader) error {
 	return dr.List(func() codec.Deserializable {
